@@ -6,6 +6,7 @@ package props
 import (
 	"encoding/json"
 	"fmt"
+	"io"
 	"sort"
 	"strings"
 	"time"
@@ -27,6 +28,14 @@ type world struct {
 	o     *vlib.Outcome
 	// hooks lets a property install cron hooks on every state it builds.
 	hooks func(core.State)
+}
+
+func init() {
+	// Silence rulio's logging: records logged without a context go to
+	// DefaultLogger, and a location without its own control (during
+	// NewLocation) falls back to SystemParameters.DefaultControl.
+	core.DefaultLogger = core.NewSimpleLogger(io.Discard)
+	core.SystemParameters.DefaultControl = quietControl()
 }
 
 func newCtx() *core.Context { return core.BenchContext("verif") }
@@ -875,4 +884,189 @@ func (w *world) checkAll(name string, universe []string, when string) {
 	}
 	w.checkListRules(name, false, when)
 	w.checkStorage(name, when)
+}
+
+// ---------------------------------------------------------------------
+// generic op interpreter with separate real and model halves (used where
+// the real half may crash or fail: C06)
+
+// applyReal performs the operation on the live location.
+func (w *world) applyReal(name string, x op) (id string, err error) {
+	loc := w.locs[name]
+	switch x.K {
+	case "addFact":
+		return loc.AddFact(newCtx(), x.Id, core.Map(gen.CopyMap(x.Doc)))
+	case "addRule":
+		return loc.AddRule(newCtx(), x.Id, core.Map(gen.CopyMap(x.Doc)))
+	case "remFact":
+		return loc.RemFact(newCtx(), x.Id)
+	case "remRule":
+		return loc.RemRule(newCtx(), x.Id)
+	case "enable":
+		return x.Id, loc.EnableRule(newCtx(), x.Id, x.B)
+	case "setParents":
+		return loc.SetParents(newCtx(), x.L)
+	case "setProp":
+		p, _ := x.Doc["p"].(string)
+		return x.Id, loc.SetProp(newCtx(), x.Id, p, gen.DeepCopy(x.Doc["v"]))
+	case "clear":
+		return "", loc.Clear(newCtx())
+	}
+	return "", fmt.Errorf("unknown op %q", x.K)
+}
+
+// applyModel performs the operation on a model location.  gotId is the id
+// the implementation acknowledged ("" if unknown, e.g. for an interrupted
+// operation: then x.Id is used and an omitted id makes the result unknown).
+func (w *world) applyModel(ml *mLoc, x op, gotId string, t0, t1 int64) {
+	switch x.K {
+	case "addFact":
+		it := modelFactItem(x.Doc)
+		w.applyExpiry(it, t0, t1)
+		id := gotId
+		if id == "" {
+			id = x.Id
+			if isProp, target, prop, multiple := factProp(x.Doc); isProp && !multiple {
+				id = propId(target, prop)
+			}
+		}
+		if id != "" {
+			ml.put(id, it)
+		}
+	case "addRule":
+		wrapper := ruleWrapper(x.Doc)
+		r := wrapper["rule"].(M)
+		if ttl, have := r["ttl"]; have {
+			wrapper["ttl"] = ttl
+			delete(r, "ttl")
+		} else if e, have := r["expires"]; have {
+			wrapper["expires"] = e
+		}
+		it := modelFactItem(wrapper)
+		w.applyExpiry(it, t0, t1)
+		id := gotId
+		if id == "" {
+			id = x.Id
+		}
+		if id != "" {
+			ml.put(id, it)
+		}
+	case "remFact":
+		ml.rem(x.Id)
+	case "remRule":
+		ml.rem(x.Id)
+		ml.rem(propId(x.Id, "disabled"))
+		delete(ml.Unspec, propId(x.Id, "disabled"))
+	case "enable":
+		pid := propId(x.Id, "disabled")
+		if x.B {
+			delete(ml.Items, pid)
+			delete(ml.Unspec, pid)
+		} else {
+			ml.put(pid, modelFactItem(M{"id": x.Id, "!disabled": true, "deleteWith": A{x.Id}}))
+		}
+	case "setParents":
+		ps := make(A, len(x.L))
+		for i, p := range x.L {
+			ps[i] = p
+		}
+		ml.put(propId("", "parents"), modelFactItem(M{"id": "", "!parents": ps, "deleteWith": A{""}}))
+	case "setProp":
+		p, _ := x.Doc["p"].(string)
+		ml.put(propId(x.Id, p), modelFactItem(M{"id": x.Id, "!" + p: gen.DeepCopy(x.Doc["v"]), "deleteWith": A{x.Id}}))
+	case "clear":
+		ml.clear()
+	}
+}
+
+// observe builds a canonical observation vector of a location (used to
+// compare a live location with one rebuilt from storage).
+func observe(loc *core.Location, ids []string, patterns []M, events []M) map[string]string {
+	obs := map[string]string{}
+	errClass := func(err error) string {
+		if _, nf := err.(*core.NotFoundError); nf {
+			return "notfound"
+		}
+		return "error: " + err.Error()
+	}
+	for _, id := range ids {
+		f, err := loc.GetFact(newCtx(), id)
+		if err != nil {
+			obs["get "+id] = errClass(err)
+		} else {
+			obs["get "+id] = vlib.JSON(refmatch.Canon(map[string]interface{}(f)))
+		}
+		en, err := loc.RuleEnabled(newCtx(), id)
+		obs["enabled "+id] = fmt.Sprint(en, err)
+	}
+	rules, err := loc.ListRules(newCtx(), false)
+	sort.Strings(rules)
+	obs["rules"] = fmt.Sprint(rules, err)
+	ps, err := loc.GetParents(newCtx())
+	obs["parents"] = fmt.Sprint(ps, err)
+	for i, p := range patterns {
+		srs, err := loc.SearchFacts(newCtx(), core.Map(gen.CopyMap(p)), false)
+		if err != nil {
+			obs[fmt.Sprintf("search %d", i)] = "error: " + err.Error()
+			continue
+		}
+		var rows []string
+		for _, sr := range srs.Found {
+			var bs []string
+			for _, b := range sr.Bindingss {
+				bs = append(bs, refmatch.Key(refmatch.Bindings(b)))
+			}
+			sort.Strings(bs)
+			rows = append(rows, sr.Id+"="+strings.Join(bs, ","))
+		}
+		sort.Strings(rows)
+		obs[fmt.Sprintf("search %d %s", i, vlib.JSON(p))] = strings.Join(rows, " ; ")
+	}
+	for i, e := range events {
+		work, cond := loc.ProcessEvent(newCtx(), core.Map(gen.CopyMap(e)))
+		if cond != nil {
+			obs[fmt.Sprintf("event %d", i)] = "error: " + cond.Msg
+			continue
+		}
+		var rows []string
+		for _, ch := range work.Children {
+			var bs []string
+			for _, b := range ch.Bindingss {
+				c := refmatch.Bindings{}
+				for k, v := range b {
+					c[k] = v
+				}
+				for _, s := range specials {
+					delete(c, s)
+				}
+				bs = append(bs, refmatch.Key(c))
+			}
+			sort.Strings(bs)
+			rows = append(rows, ch.Rule.Id+"="+strings.Join(bs, ","))
+		}
+		sort.Strings(rows)
+		var vals []string
+		for _, v := range work.Values {
+			vals = append(vals, fmt.Sprint(v))
+		}
+		sort.Strings(vals)
+		obs[fmt.Sprintf("event %d %s", i, vlib.JSON(e))] = strings.Join(rows, " ; ") + " values " + strings.Join(vals, ",")
+	}
+	return obs
+}
+
+func diffObs(a, b map[string]string) []string {
+	var d []string
+	for k, v := range a {
+		if b[k] != v {
+			d = append(d, fmt.Sprintf("%s: live %q vs reloaded %q", k, v, b[k]))
+		}
+	}
+	for k, v := range b {
+		if _, have := a[k]; !have {
+			d = append(d, fmt.Sprintf("%s: live <none> vs reloaded %q", k, v))
+		}
+	}
+	sort.Strings(d)
+	return d
 }
